@@ -16,36 +16,90 @@ use crate::util::{all_strings, J};
 
 pub struct C11;
 
+/// Upper bound on the number of letter pairs (the list segment is sized by
+/// it; indices beyond the actual list are empty items).
+const N_PAIRS_HINT: u64 = 1536;
+
 fn space_for(tier: Tier) -> (Space, usize) {
     let mut s = Space::new();
     match tier {
         Tier::Quick => {
             s.ast("CI", 4, 32);
-            s.list("letters", LETTERS.len() as u64, 4);
+            s.list("letters", N_PAIRS_HINT, 8);
             (s, 2)
         }
         Tier::Thorough => {
             s.ast("CI", 5, 32);
-            s.list("letters", LETTERS.len() as u64, 4);
+            s.list("letters", N_PAIRS_HINT, 8);
             (s, 3)
         }
     }
 }
 
-/// Letter pairs with one-to-one simple case mappings (lower, upper) plus
-/// case-less characters, for the literal / class / back-reference micro-family.
-const LETTERS: [(char, char); 10] = [
-    ('a', 'A'),
-    ('z', 'Z'),
-    ('\u{e9}', '\u{c9}'),
-    ('\u{e0}', '\u{c0}'),
-    ('\u{3b1}', '\u{391}'),
-    ('\u{3c9}', '\u{3a9}'),
-    ('\u{434}', '\u{414}'),
-    ('\u{44f}', '\u{42f}'),
-    ('\u{10428}', '\u{10400}'),
-    ('\u{1e943}', '\u{1e921}'),
-];
+/// All letter pairs with a strictly one-to-one simple case mapping: lower(u) =
+/// l, upper(l) = u, nothing else maps to either, both assigned in the
+/// General_Category witness (Unicode case-pair stability then guarantees that
+/// every Unicode version that knows both characters pairs them).
+pub fn letter_pairs(ucd: &crate::ucd::Ucd) -> Vec<(char, char)> {
+    use std::collections::HashMap;
+    let one = |mut it: std::char::ToLowercase| -> Option<char> {
+        match (it.next(), it.next()) {
+            (Some(x), None) => Some(x),
+            _ => None,
+        }
+    };
+    let oneu = |mut it: std::char::ToUppercase| -> Option<char> {
+        match (it.next(), it.next()) {
+            (Some(x), None) => Some(x),
+            _ => None,
+        }
+    };
+    // classes of the relation c ~ lower(c) ~ upper(c)
+    let mut class_of: HashMap<char, Vec<char>> = HashMap::new();
+    let mut irregular: std::collections::HashSet<char> = std::collections::HashSet::new();
+    for cp in 0u32..0x110000 {
+        let c = match char::from_u32(cp) {
+            Some(c) => c,
+            None => continue,
+        };
+        let l = one(c.to_lowercase());
+        let u = oneu(c.to_uppercase());
+        if l.is_none() || u.is_none() {
+            irregular.insert(c);
+            continue;
+        }
+        let (l, u) = (l.unwrap(), u.unwrap());
+        if l != c || u != c {
+            // key: the lower-case form
+            let key = if l != c { l } else { c };
+            let e = class_of.entry(key).or_default();
+            for x in [c, l, u] {
+                if !e.contains(&x) {
+                    e.push(x);
+                }
+            }
+        }
+    }
+    let mut out = vec![];
+    for (k, v) in class_of {
+        if v.len() != 2 || v.iter().any(|c| irregular.contains(c)) {
+            continue;
+        }
+        let (a, b) = (v[0], v[1]);
+        let (l, u) = if a == k { (a, b) } else { (b, a) };
+        let lo = one(u.to_lowercase());
+        let up = oneu(l.to_uppercase());
+        if lo != Some(l) || up != Some(u) || one(l.to_lowercase()) != Some(l) || oneu(u.to_uppercase()) != Some(u) {
+            continue;
+        }
+        if ucd.category(l as u32) == *b"Cn" || ucd.category(u as u32) == *b"Cn" {
+            continue;
+        }
+        out.push((l, u));
+    }
+    out.sort();
+    out
+}
 const CASELESS: [char; 5] = ['1', ' ', '\n', '-', '\u{4e2d}'];
 
 fn swap_all(s: &str) -> String {
@@ -93,9 +147,9 @@ impl Check for C11 {
             chunks: s.chunks(),
             layer_of: s.layer_fn(),
             description: format!(
-                "every pattern AST over leaves a A b U+E9 U+C9 1 [a-b] [^A] [A-[b]] \\p{{Lu}} x {{i, no i}} x every input of length <= {} over a A b B U+E9 U+C9 1 LF U+10400 U+10428; plus a micro-family over {} letter pairs (ASCII, Latin-1, Greek, Cyrillic, Deseret, Adlam) and {} case-less characters as literal, class member, range end, negated class, subtraction and back-reference: {}",
+                "every pattern AST over leaves a A b U+E9 U+C9 1 [a-b] [^A] [A-[b]] \\p{{Lu}} x {{i, no i}} x every input of length <= {} over a A b B U+E9 U+C9 1 LF U+10400 U+10428; plus a micro-family over every letter pair with a strictly one-to-one simple case mapping (at most {} pairs, the evidence reports the number) and {} case-less characters as literal, class member, range end, negated class, subtraction and back-reference: {}",
                 maxlen,
-                LETTERS.len(),
+                N_PAIRS_HINT,
                 CASELESS.len(),
                 s.describe()
             ),
@@ -111,8 +165,16 @@ impl Check for C11 {
         let (seg, lo, hi) = sp.locate(chunk);
         let scope_name = space::seg_scope_name(seg);
         if let SegKind::List { .. } = seg.kind {
+            let pairs = letter_pairs(&ctx.ucd);
+            out.max("letter_pairs", pairs.len() as u64);
+            if pairs.len() as u64 > N_PAIRS_HINT {
+                out.inc("machinery_pair_list_truncated");
+            }
             for i in lo..hi {
-                let (l, u) = LETTERS[i as usize];
+                if i as usize >= pairs.len() {
+                    continue;
+                }
+                let (l, u) = pairs[i as usize];
                 let mut pats: Vec<String> = vec![];
                 for x in [l, u] {
                     pats.push(format!("{}", x));
